@@ -103,6 +103,7 @@ Definition import_module (s : istate) (name : string) (src : msource) : istate *
                   | IOk => ({| meta_path := meta_path s; enabled := enabled s; loaded := name :: loaded s |}, IOk)
                   | e => (s, e) end in
   if negb (active s) then finish (exec_body s src [])
+  else if negb (enabled s) then finish (exec_body s src [])      (* contracts are disabled: the plain loader, whatever the source declares *)
   else match get_contracts (m_body src) with
        | [] => finish (exec_body s src [])
        | nodes =>
@@ -117,7 +118,7 @@ Definition import_module (s : istate) (name : string) (src : msource) : istate *
              end in
            match conv nodes [] with
            | inr c => (s, IExc c)
-           | inl cs => finish (exec_body s src (if enabled s then cs else []))    (* the contracts are ordinary runtime contracts over exec_module: inert while disabled *)
+           | inl cs => finish (exec_body s src cs)
            end
        end.
 
